@@ -70,3 +70,120 @@ pub fn subsets(all: u32) -> impl Iterator<Item = u32> {
         Some(c)
     })
 }
+
+
+/// A consumer that, at its `at`-th callback (0 = initialize, 1 = header, 2.. = instructions), runs a COMPLETE second
+/// parse of `inner` into a fresh Collector before it continues (a linker-like consumer that loads what a module refers to).
+pub struct Nesting<'a> {
+    pub outer: Collector,
+    pub inner_bytes: &'a [u8],
+    pub at: usize,
+    pub calls: usize,
+    pub inner: Option<(Result<(), String>, Vec<dr::Instruction>)>,
+}
+
+impl<'a> Nesting<'a> {
+    fn tick(&mut self) {
+        if self.calls == self.at {
+            let (r, c) = parse_collect(self.inner_bytes);
+            self.inner = Some((r.map_err(|e| state_name(&e).to_string()), c.insts));
+        }
+        self.calls += 1;
+    }
+}
+
+impl<'a> Consumer for Nesting<'a> {
+    fn initialize(&mut self) -> ParseAction {
+        self.tick();
+        self.outer.initialize()
+    }
+    fn finalize(&mut self) -> ParseAction {
+        self.tick();
+        self.outer.finalize()
+    }
+    fn consume_header(&mut self, h: dr::ModuleHeader) -> ParseAction {
+        self.tick();
+        self.outer.consume_header(h)
+    }
+    fn consume_instruction(&mut self, i: dr::Instruction) -> ParseAction {
+        self.tick();
+        self.outer.consume_instruction(i)
+    }
+}
+
+/// Re-entrancy: every ordered pair (outer, inner) of a family of small binaries with typed literals, unknown opcodes
+/// and truncations, the inner one parsed from INSIDE the outer parse at every callback position: both results (Ok / error
+/// class, delivered instructions) must be what each binary gives when parsed alone. Returns the number of nested parses
+/// and descriptions of the differences (a panic counts as one).
+pub fn nested_parse_sweep() -> (u64, Vec<(String, serde_json::Value)>) {
+    use crate::model::{enc, header, words_to_bytes, Arg, Inst};
+    use rayon::prelude::*;
+    let mk = |v: Vec<Inst>, cut: usize, extra: &[u32]| -> Vec<u8> {
+        let mut w = header(0x0001_0300, 0, 100);
+        for i in &v {
+            w.extend(enc(i));
+        }
+        w.extend_from_slice(extra);
+        let n = w.len() - cut.min(w.len() - 5);
+        words_to_bytes(&w[..n])
+    };
+    let t64 = Inst::new("TypeInt", None, Some(1), vec![Arg::Lit32(64), Arg::Lit32(0)]);
+    let t32 = Inst::new("TypeInt", None, Some(1), vec![Arg::Lit32(32), Arg::Lit32(0)]);
+    let t24 = Inst::new("TypeInt", None, Some(1), vec![Arg::Lit32(24), Arg::Lit32(0)]);
+    let c64 = Inst::new("Constant", Some(1), Some(2), vec![Arg::Lit64(0x1_0000_0002)]);
+    let c32 = Inst::new("Constant", Some(1), Some(2), vec![Arg::Lit32(7)]);
+    let und = Inst::new("Undef", Some(1), Some(3), vec![]);
+    let sw64 = Inst::new("Switch", None, None, vec![Arg::IdRef(3), Arg::IdRef(9), Arg::Lit64(5), Arg::IdRef(8)]);
+    let sw32 = Inst::new("Switch", None, None, vec![Arg::IdRef(3), Arg::IdRef(9), Arg::Lit32(5), Arg::IdRef(8)]);
+    let name = Inst::new("Name", None, None, vec![Arg::IdRef(1), Arg::Str("n\u{e9}".into())]);
+    let ext = Inst::new("ExtInstImport", None, Some(5), vec![Arg::Str("GLSL.std.450".into())]);
+    let family: Vec<Vec<u8>> = vec![
+        mk(vec![], 0, &[]),
+        mk(vec![t64.clone(), c64.clone()], 0, &[]),
+        mk(vec![t32.clone(), c32.clone()], 0, &[]),
+        mk(vec![t24.clone(), c32.clone()], 0, &[]),
+        mk(vec![c32.clone()], 0, &[]),
+        mk(vec![t64.clone(), und.clone(), sw64.clone(), c64.clone()], 0, &[]),
+        mk(vec![t32.clone(), und.clone(), sw32.clone()], 0, &[]),
+        mk(vec![t64.clone(), c64.clone()], 1, &[]),
+        mk(vec![t64.clone(), c64.clone(), name.clone()], 0, &[(1 << 16) | 0x7777]),
+        mk(vec![name.clone(), ext.clone(), t64.clone(), und.clone(), sw64.clone()], 0, &[0]),
+        mk(vec![t64.clone(), c32.clone()], 0, &[]),
+        mk(vec![t32.clone(), c64.clone()], 0, &[]),
+    ];
+    let alone: Vec<(Result<(), String>, Vec<crate::model::Inst>)> = family
+        .iter()
+        .map(|b| {
+            let (r, c) = parse_collect(b);
+            (r.map_err(|e| state_name(&e).to_string()), c.insts.iter().map(crate::model::from_dr).collect())
+        })
+        .collect();
+    let work: Vec<(usize, usize, usize)> = (0..family.len()).flat_map(|o| (0..family.len()).flat_map(move |i| (0..7usize).map(move |at| (o, i, at)))).collect();
+    let n = work.len() as u64;
+    let bad: Vec<(String, serde_json::Value)> = work
+        .par_iter()
+        .filter_map(|&(o, i, at)| {
+            let rep = serde_json::json!({"kind": "nested-parse", "outer": crate::report::hex(&family[o]), "inner": crate::report::hex(&family[i]), "at_callback": at});
+            let r = crate::report::guarded(|| {
+                let mut n = Nesting { outer: Collector::default(), inner_bytes: &family[i], at, calls: 0, inner: None };
+                let res = rspirv::binary::parse_bytes(&family[o], &mut n);
+                (res.map_err(|e| state_name(&e).to_string()), n.outer.insts.iter().map(crate::model::from_dr).collect::<Vec<_>>(), n.inner.map(|(r, v)| (r, v.iter().map(crate::model::from_dr).collect::<Vec<_>>())))
+            });
+            match r {
+                Err(p) => Some((format!("panic: a consumer that parses binary #{} from inside callback {} of the parse of binary #{} makes the parser panic: {}", i, at, o, p), rep)),
+                Ok((ro, io, inner)) => {
+                    if (ro.clone(), io.clone()) != alone[o] {
+                        return Some((format!("outer-differs: binary #{} parsed with a nested parse of #{} at callback {} gives {:?} / {} instructions; alone {:?} / {}", o, i, at, ro, io.len(), alone[o].0, alone[o].1.len()), rep));
+                    }
+                    if let Some((ri, ii)) = inner {
+                        if (ri.clone(), ii.clone()) != alone[i] {
+                            return Some((format!("inner-differs: binary #{} parsed from inside callback {} of the parse of #{} gives {:?} / {} instructions; alone {:?} / {}", i, at, o, ri, ii.len(), alone[i].0, alone[i].1.len()), rep));
+                        }
+                    }
+                    None
+                }
+            }
+        })
+        .collect();
+    (n, bad)
+}
